@@ -764,7 +764,8 @@ impl Element {
                 }
                 let mut segs = Ident::parse_colon_separated(ps);
                 let attr_name = segs.pop().unwrap();
-                let prefix = if segs.len() <= 1 && attr_name.name.len() > 0 {
+                // (a name made of dashes only has no camel-case form: `worklet:--` is not an attribute)
+                let prefix = if segs.len() <= 1 && attr_name.name.chars().any(|c| c != '-') {
                     match segs.first() {
                         None => match (&element, attr_name.name.as_str()) {
                             (ElementKind::TemplateRef { .. }, "name") => {
@@ -793,7 +794,8 @@ impl Element {
                             (ElementKind::Normal { .. }, "class") => AttrPrefixKind::ClassString,
                             (ElementKind::Normal { .. }, "style") => AttrPrefixKind::StyleString,
                             (ElementKind::Normal { .. }, x) | (ElementKind::Slot { .. }, x)
-                                if x.starts_with("data-") =>
+                                if x.starts_with("data-")
+                                    && x["data-".len()..].chars().any(|c| c != '-') =>
                             {
                                 AttrPrefixKind::DataHyphen
                             }
